@@ -135,6 +135,7 @@ def run(P, R, tier):
         one_overload(P, R, f, "PR%d:" % (4 if f["pnames"] else 0))   # tags name the two overloads: gas-phase unknowns (0) / explicit phase list (4)
     kij_rule(P, R)
     cache_rule(P, R)
+    cachereset_rule(P, R)
     quick_rule(P, R)
     prtemp_rule(P, R)
     vmowner_rule(P, R)
@@ -578,3 +579,58 @@ def vmowner_rule(P, R):
                 R.ok(RULE, inst, "walks the gas phase's components" if walks else "passes for_gas_phase = false")
             else:
                 R.violation(RULE, inst, "%s evaluates calc_PR for phases that are not taken from the gas phase and lets it store the molar volume there" % g["q"], file=g["file"], line=c[1], function=g["q"])
+
+
+def cachereset_rule(P, R):
+    """"Peng-Robinson with the critical constants given in the database" - the CURRENT ones: calc_PR computes a, b from T_c, P_c only
+    when the phase's cache key is unset (`if (!phase_ptr->pr_a)`) and alpha only when pr_tk differs.  PHASES may redefine a gas during the
+    life of the instance; phase_store then re-initialises the existing record with phase_init.  Every member that calc_PR tests as a cache
+    key (a phase member in the condition of an if whose body assigns phase members) must be reset by phase_init, and phase_store must
+    reach phase_init for an existing entry - otherwise the gas keeps the a, b of its former critical constants."""
+    RULE = "C19.cachereset"
+    R.rule(RULE, "every phase member that calc_PR uses as a cache key is reset by phase_init, which phase_store applies to a redefined phase", minimum=5)
+    init = P.one("Phreeqc::phase_init")
+    store = P.one("Phreeqc::phase_store")
+    reset = {}
+    for t, how, line, w in T.writes(init["body"]):
+        root, steps = T.access_path(t)
+        if how == "=" and steps and steps[-1][0] == "f":
+            r = T.strip_casts(w[4])
+            if T.is_node(r) and r[0] == "Lit":
+                reset[steps[-1][1].split("::")[-1]] = line
+    fs = [g for g in P.fns_named("Phreeqc::calc_PR") if g.get("body")]
+    n = 0
+    for f in fs:
+        tag = "PR%d" % (4 if f["pnames"] else 0)
+        keys = {}
+        for x in T.walk(f["body"]):
+            if x[0] != "If":
+                continue
+            assigns = [w for t, how, line, w in T.writes(x[3]) if how == "=" and T.is_node(T.strip_casts(t)) and T.strip_casts(t)[0] == "Member"
+                       and T.strip_casts(t)[2].startswith("phase::")]
+            if not assigns:
+                continue
+            for y in T.walk(x[2]):      # `!p->key` or `p->key != value`: a cache-state test (not an ordering test of a quantity)
+                cand = []
+                if y[0] == "Un" and y[2] == "!":
+                    cand = [T.strip_casts(y[3])]
+                elif y[0] == "Bin" and y[2] == "!=":
+                    cand = [T.strip_casts(y[3]), T.strip_casts(y[4])]
+                for m in cand:
+                    if T.is_node(m) and m[0] == "Member" and m[2].startswith("phase::"):
+                        keys.setdefault(m[2].split("::")[-1], x[1])
+        for key, line in sorted(keys.items()):
+            n += 1
+            inst = "%s:%s" % (tag, key)
+            if key in reset:
+                R.ok(RULE, inst, "cache key tested at line %d, reset by phase_init (line %d)" % (line, reset[key]))
+            else:
+                R.violation(RULE, inst, "calc_PR recomputes cached Peng-Robinson terms only under a test of phase::%s (line %d), but phase_init does not reset %s: a gas redefined in "
+                            "PHASES keeps the terms of its former critical constants" % (key, line, key), file=init["file"], line=init["line"], function=init["q"])
+    if any(T.callee_q(c) == "Phreeqc::phase_init" for c in T.calls(store["body"])):
+        R.ok(RULE, "phase_store", "re-initialises an existing phase with phase_init")
+    else:
+        R.violation(RULE, "phase_store", "phase_store no longer applies phase_init to a phase that is defined again: every cached term survives the redefinition",
+                    file=store["file"], line=store["line"], function=store["q"])
+    if n < 4:
+        R.anchor_missing(RULE, "only %d cache keys found in the calc_PR overloads" % n)
